@@ -388,6 +388,9 @@ func init() {
 							ths := all
 							if !w.Thorough() {
 								ths = c28SpecialThemes // quick: single statements under default, one dark and the four special-rule themes
+								if v == 1 {
+									ths = []int64{0, 303} // and the second value under default and c4 only
+								}
 							}
 							for _, th := range ths {
 								w.Eval("export", c28In{Src: t.base + c28Stmt(t, kw, v), Theme: th}.String())
@@ -432,7 +435,7 @@ func init() {
 				if w.Thorough() {
 					ths = c28SpecialThemes
 				}
-				for _, s := range c28CorpusInputs(w.Pick(100, 1500)) {
+				for _, s := range c28CorpusInputs(w.Pick(80, 1500)) {
 					for _, th := range ths {
 						w.Eval("export", c28In{Src: s, Theme: th}.String())
 					}
